@@ -319,10 +319,9 @@ func deepCopy(v any) any {
 // generated: harness-made inputs beyond the model's: random ones and chains that follow the
 // recursion of the graph to great depth.  Only the relation between scope and inlined scope is
 // judged, plus: a chain accepted at small depths must be accepted at every depth.
-func generated(res *resT, p *pair, tree, inl *T, x lex, gen genT, skip map[string]bool) {
-	g := newGraph(tree, x)
+func generated(res *resT, p *pair, g *graph, tree, inl *T, gen genT, skip map[string]bool) (late []func()) {
 	rng := rand.New(rand.NewSource(gen.Seed))
-	markers := markersOf(tree, x.ext)
+	markers := markersOf(tree, g.x.ext)
 	for i := 0; i < gen.N; i++ {
 		fault := 0.0
 		if i%3 != 0 {
@@ -333,7 +332,15 @@ func generated(res *resT, p *pair, tree, inl *T, x lex, gen genT, skip map[strin
 		if skip[key] {
 			continue
 		}
-		p.compare(res, func() any { return deepCopy(v) }, nil, map[string]any{"raw": key, "origin": "random"})
+		f := func() {
+			p.compare(res, func() any { return deepCopy(v) }, nil, map[string]any{"raw": key, "origin": "random"})
+		}
+		if g.hasLoop(tree, tree, v, map[node]bool{}) {
+			res.Loops++
+			late = append(late, f)
+			continue
+		}
+		f()
 	}
 	if len(gen.Deep) == 0 || !g.typeReaches(tree, tree) {
 		return
@@ -342,7 +349,7 @@ func generated(res *resT, p *pair, tree, inl *T, x lex, gen genT, skip map[strin
 	for _, n := range []int{1, 2, 3, 5} {
 		v, d := g.chain(tree, tree, n)
 		if d < n {
-			return // the recursion is not reachable through acceptable inputs at this depth
+			return late // the recursion is not reachable through acceptable inputs at this depth
 		}
 		key := fmt.Sprintf("deep:%d", n)
 		if skip[key] {
@@ -353,7 +360,7 @@ func generated(res *resT, p *pair, tree, inl *T, x lex, gen genT, skip map[strin
 	}
 	if !smallOK {
 		res.add(true, map[string]any{"op": "unserialize", "class": "chain_generator"}, map[string]any{"note": "a generated chain was rejected at small depth"})
-		return
+		return late
 	}
 	for _, n := range gen.Deep {
 		key := fmt.Sprintf("deep:%d", n)
@@ -370,6 +377,73 @@ func generated(res *resT, p *pair, tree, inl *T, x lex, gen genT, skip map[strin
 				map[string]any{"depth": d, "note": "the same chain is accepted at depths 1,2,3,5 and rejected here"})
 		}
 	}
+	return late
+}
+
+// hasLoop predicts (for scheduling only, never for a verdict) that v leads a chain of
+// single-property shorthands back to an object it already passed with the same value.
+func (g *graph) hasLoop(t *T, env *T, v any, seen map[node]bool) bool {
+	switch t.Kind {
+	case "leaf":
+		return false
+	case "ref":
+		o, e := g.x.target(t, env)
+		return o != nil && g.hasLoop(o, e, v, seen)
+	case "scope":
+		return g.hasLoop(t.objByID(t.ID), t, v, seen)
+	case "list":
+		if l, ok := v.([]any); ok {
+			for _, x := range l {
+				if g.hasLoop(t.Sub[0], env, x, map[node]bool{}) {
+					return true
+				}
+			}
+		}
+		return false
+	case "map":
+		if m, ok := v.(map[string]any); ok {
+			for _, x := range m {
+				if g.hasLoop(t.Sub[0], env, x, map[node]bool{}) {
+					return true
+				}
+			}
+		}
+		return false
+	case "oneof":
+		m, ok := v.(map[string]any)
+		if !ok {
+			return false
+		}
+		for i, mem := range t.Sub {
+			if m[discField] == keys[i] {
+				rest := map[string]any{}
+				for k, x := range m {
+					if k != discField {
+						rest[k] = x
+					}
+				}
+				return g.hasLoop(mem, env, rest, map[node]bool{})
+			}
+		}
+		return false
+	}
+	if m, ok := v.(map[string]any); ok {
+		for _, p := range t.Props {
+			if x, has := m[p.Name]; has && g.hasLoop(p.Type, env, x, map[node]bool{}) {
+				return true
+			}
+		}
+		return false
+	}
+	if len(t.Props) != 1 {
+		return false
+	}
+	n := node{t, env}
+	if seen[n] {
+		return true
+	}
+	seen[n] = true
+	return g.hasLoop(t.Props[0].Type, env, v, seen)
 }
 
 // ---------------------------------------------------------------- random trees (code -> spec)
@@ -587,7 +661,12 @@ func runRand(c *caseT) *resT {
 	if p == nil {
 		return res
 	}
-	generated(res, p, tree, inl, lex{ext: tg.ext, nstab: tg.home}, genT{Seed: c.Seed, N: c.N, Deep: c.Deep}, map[string]bool{})
+	late := generated(res, p, newGraph(tree, lex{ext: tg.ext, nstab: tg.home}), tree, inl, genT{Seed: c.Seed, N: c.N, Deep: c.Deep}, map[string]bool{})
+	if !c.SkipLoops {
+		for _, f := range late {
+			f()
+		}
+	}
 	return res
 }
 
